@@ -6,7 +6,7 @@
 //!
 //! Events (validated by spec/Trace_BP.tla):
 //!   {"e":"build","cfg":..,"st":"o|b","sel":"n|s|c","rate":R,"rl":[[bit,n]..],"len":L,
-//!    "nw":words,"sw":surplus whole words,"sw1":1-bits in surplus whole words,"rlen":len()|-2}
+//!    "nw":words,"sw":surplus whole words,"sw1":1-bits past len when sw > 0,"rlen":len()|-2}
 //!   {"e":"q","op":<op>,"a":arg,"r":result}       methods of the last built BalancedParens
 //!        ops: find_close find_open enclose parent first_child next_sibling excess depth
 //!             subtree_size rank1 rank0 is_open is_close select1 select0 total_ones total_zeros
@@ -302,7 +302,12 @@ fn make_case(r: &mut Rng, s: &Rl, allow_surplus: bool) -> Case {
         words.truncate(need);
     }
     let sw = words.len() - need;
-    let sw1: usize = words[need..].iter().map(|w| w.count_ones() as usize).sum();
+    // 1-bits past len in a storage that has surplus whole words (stray bits of the word holding
+    // len included: with surplus words that word is not the last one, so nothing masks it)
+    let mut sw1: usize = words[need..].iter().map(|w| w.count_ones() as usize).sum();
+    if sw > 0 && len % 64 != 0 {
+        sw1 += (words[need - 1] >> (len % 64)).count_ones() as usize;
+    }
     Case { words, len, sw, sw1 }
 }
 
@@ -480,6 +485,25 @@ const RATES: [u32; 9] = [0, 1, 2, 3, 255, 256, 257, 4096, 64];
 
 fn main() {
     let args = Args::parse();
+    if args.pos.first().map(|s| s.as_str()) == Some("probe") {
+        // the literal failing inputs quoted in known_findings.d/C04.json
+        silence_panics();
+        let a = BalancedParens::new(vec![0b01, u64::MAX], 2);
+        println!("new([0b01,MAX],2).total_ones() = {} (definition 1)", a.total_ones());
+        println!("new([0b01,MAX],2).total_zeros() = {:?} (definition 1)", guarded(|| a.total_zeros()));
+        let w = [0b01u64, u64::MAX];
+        let b = BalancedParens::<&[u64], NoSelect>::from_words(&w[..], 2);
+        println!("from_words([0b01,MAX],2).total_ones() = {} (definition 1)", b.total_ones());
+        println!("from_words([0b01,MAX],2).select0(0) = {:?} (definition Some(1))", guarded(|| b.select0(0)));
+        let w2 = [0b01u64, 0b1];
+        let c = BalancedParens::<&[u64], NoSelect>::from_words(&w2[..], 2);
+        println!("from_words([0b01,0b1],2).select0(0) = {:?} (definition Some(1))", guarded(|| c.select0(0)));
+        let w3 = [0b101u64, 0];
+        let d = BalancedParens::<&[u64], NoSelect>::from_words(&w3[..], 2);
+        println!("from_words([0b101,0],2).total_ones() = {} (definition 1)", d.total_ones());
+        println!("find_close(&[1,0],1,0) = {:?} (definition None)", guarded(|| find_close(&[1, 0], 1, 0)));
+        return;
+    }
     if args.pos.len() < 2 || args.pos[0] != "record" {
         die("usage: c04 record <out> seed=N vectors=N cfg=name [maxbits=N] [npos=N] [kwords=N]");
     }
